@@ -125,6 +125,10 @@ func cmdCheck(args []string) int {
 		sort.Strings(sigs)
 		for _, sig := range sigs {
 			g := res.Viols[sig]
+			// a harness shared by several properties prefixes its assertion labels with the property they belong to
+			if m := labelProp.FindString(g.First.Label); m != "" && m != id {
+				continue
+			}
 			kf := matchKnown(known, id, sig)
 			rec := map[string]interface{}{"signature": sig, "run": res.Cfg.Name, "paths": g.Count}
 			if kf != nil {
@@ -253,6 +257,8 @@ func cmdCheck(args []string) int {
 	fmt.Printf("OK property=%s tier=%s paths=%d queries=%d known_findings=%d wall=%.1fs\n", id, *tier, paths, queries, nKnown, time.Since(t0).Seconds())
 	return 0
 }
+
+var labelProp = regexp.MustCompile(`^C[0-9]{2}`)
 
 func round2(f float64) float64 { return float64(int64(f*100+0.5)) / 100 }
 
